@@ -78,9 +78,31 @@ Fixpoint run_history (stepf : hstate -> op -> hstate * step_result) (qs : list r
   | o :: ops' => let (h', r) := stepf h o in e_step h' r qs es :: run_history stepf qs es ops' h'
   end.
 
+(* PolicySet::from_json_value: EST -> ast::PolicySet (add each static policy, add_template each
+   template, link each template link; first error wins), then from_est = api_of_ast *)
+Fixpoint run_init (ops : list op) (h : hstate) : ores hstate :=
+  match ops with
+  | [] => OOk h
+  | o :: ops' => match ast_step h o with
+                 | (h', (OOk _, _)) => run_init ops' h'
+                 | (_, (OErr e, _)) => OErr e
+                 end
+  end.
+
 Definition run_pset (cmd : string) (args : list sexp) : option sexp :=
   if sym_eqb cmd "pset_history" then
     Some (match args with
+          | [SY lvl; es; qs; ops; init] =>
+              match d_entities es, d_list d_request qs, d_list (d_op true) ops, d_list d_simple_op init with
+              | Some es, Some qs, Some ops, Some init =>
+                  match run_init init empty_h with
+                  | OErr e => SL [SY "init_error"; e_pserr e]
+                  | OOk h0 =>
+                      let h := mkH (api_of_ast (a_ast (h_api h0))) [] in
+                      SL (e_step h (OOk tt, []) qs es :: run_history api_step qs es ops h)
+                  end
+              | _, _, _, _ => bad_input
+              end
           | [SY lvl; es; qs; ops] =>
               let api := sym_eqb lvl "api" in
               match d_entities es, d_list d_request qs, d_list (d_op api) ops with
